@@ -9,7 +9,7 @@ Definition tid (n : nat) : transport := match n with 0 => TPty | 1 => TFd | 2 =>
 Definition run_io (c : bool * (bool * bool * bool) * nat * list op) : V :=
   match c with (u, (a, r, s), t, ops) =>
     let o := snd (run u {| has_all := a; has_read := r; has_send := s |} (tid t) ops) in
-    VL [vlist vtext (delivered o); vlist vtext (wire o); vlist enc_ev (events o); vlist vnat (returns o)]
+    VL [vlist vtext (delivered o); vtext (concat (wire o)); vlist enc_ev (events o); vlist vnat (returns o)]
   end.
 
 (** the same with the log attributes reassigned in between (they are looked up at every call) *)
@@ -24,7 +24,7 @@ Fixpoint run_x (u : bool) (t : transport) (L : logs) (st : cst (if u then utf8_c
 Definition run_iox (c : bool * (bool * bool * bool) * nat * list xop) : V :=
   match c with (u, (a, r, s), t, ops) =>
     let o := snd (run_x u (tid t) {| has_all := a; has_read := r; has_send := s |} (cinit (if u then utf8_codec else null_codec), out0) ops) in
-    VL [vlist vtext (delivered o); vlist vtext (wire o); vlist enc_ev (events o); vlist vnat (returns o)]
+    VL [vlist vtext (delivered o); vtext (concat (wire o)); vlist enc_ev (events o); vlist vnat (returns o)]
   end.
 
 (** the write loop (job write-all): (what each os.write accepts; payload) -> pieces written, left over *)
